@@ -118,11 +118,22 @@ def subst_value(dom, v, name, key):
     return dom.lift(r.subs({name: kr}))
 
 
+class HistoryDependent(Exception):
+    """A table-building loop carries state from one key to the next: an entry depends on which other keys are present."""
+
+    def __init__(self, loop, names):
+        Exception.__init__(self, 'table entries depend on loop history through %s' % names)
+        self.loop, self.names = loop, names
+
+
 def table_law(db, fi, loop, dom_factory, key_name, presets, table_names):
     """Interpret one iteration of a table-building loop for a symbolic key.
 
     presets: {name: callable(dom) -> Value} for the names the body reads; table_names: dicts written by the body.
     Returns (dom, {table: entry value as an expression of the atom `key_name`})."""
+    carried = sorted(loop_carried(loop) - set(table_names))
+    if carried:
+        raise HistoryDependent(loop, carried)
     step, params = loop_as_function(fi, loop, [])
     it, dom = dom_factory()
     tables = {}
@@ -196,6 +207,13 @@ def zernike_rules(run, db, rule='C08.table2'):
     run.check(okmax and okzip, rule, f.qual, 'per-|m| maximum', 'the table length per |m| is the maximum of (n - |m|)//2 over the requests with that |m| (request i is paired with its own |m_i|)',
               'the per-|m| Jacobi table length is no longer max((n-|m|)//2) over the paired requests', f.loc(Lmax))
     first = True
+    for lp_ in (Lar, Ltab, Laz):
+        carried = sorted(loop_carried(lp_) - {'jacobi_seqs_mjn', 'jacobi_seqs', 'powers_of_m', 'sines', 'cosines'})
+        run.check(not carried, rule, f.qual, 'table loop at `%s`' % norm_stmt(lp_)[:40], 'every table entry is computed from its own key only (no value carried from one key to the next)',
+                  'the table-building loop `%s` carries %s from one key to the next: an entry then depends on which OTHER azimuthal orders were requested (e.g. r**|m| built by one multiply per distinct |m| '
+                  'is wrong as soon as the requested |m| have a gap)' % (norm_stmt(lp_)[:60], carried), f.loc(lp_))
+        if carried:
+            return
     for label, mk_m in (('m = 0', lambda d: Const(0)), ('m > 0', lambda d: d.sym('m')), ('m < 0', lambda d: Sym(-d.sym('mm').r))):
         for norm in (True, False):
             it, dom = factory()
